@@ -9,6 +9,7 @@ use std::io::{BufRead, Write};
 const ABSENT: i64 = -999;
 const HUGE: i64 = 2_000_000_000;   // TLC integers are 32-bit: anything larger is reported as HUGE
 const GOOD_SEED: &str = "a32049da0ffde0ded92ce10a0230d35fe615ec8461c14986baa63fe3b3bac3db";
+const DIGIT_SEED: &str = "3141592653589793238462643383279502884197169399375105820974944592";
 const INT_KEYS: [(&str, &str); 6] = [
     ("port", "ROUGHENOUGH_PORT"), ("batch_size", "ROUGHENOUGH_BATCH_SIZE"), ("fault_percentage", "ROUGHENOUGH_FAULT_PERCENTAGE"),
     ("num_workers", "ROUGHENOUGH_NUM_WORKERS"), ("status_interval", "ROUGHENOUGH_STATUS_INTERVAL"), ("health_check_port", "ROUGHENOUGH_HEALTH_CHECK_PORT"),
@@ -20,6 +21,7 @@ const ALL_ENV: [&str; 11] = ["ROUGHENOUGH_PORT", "ROUGHENOUGH_INTERFACE", "ROUGH
 fn seed_text(kind: &str) -> Option<String> {
     match kind {
         "ok" => Some(GOOD_SEED.to_string()),
+        "digits" => Some(DIGIT_SEED.to_string()),
         "short" => Some(GOOD_SEED[..62].to_string()),
         "long" => Some(format!("{}ab", GOOD_SEED)),
         "nonhex" => Some(format!("zz{}", &GOOD_SEED[2..])),
@@ -70,7 +72,7 @@ pub fn probe(src: &str, w: &Value, workdir: &str) -> Value {
             "health_check_port": cfg.health_check_port().map(|p| p as i64).unwrap_or(ABSENT),
             "client_stats": cfg.client_stats_enabled(),
             "persistence": cfg.persistence_directory().is_some(),
-            "seed_ok": hex(&cfg.seed()) == GOOD_SEED,
+            "seed_ok": hex(&cfg.seed()) == seed_text(w["seed"].as_str().unwrap_or("")).unwrap_or_default(),
             "interface_ok": cfg.interface() == "127.0.0.1",
         }))
     });
@@ -141,7 +143,7 @@ pub fn record(seed: u64, tier: &str, out_path: &str, workdir: &str) {
             }
         }
         if rng.chance(1, 12) { w["port"] = json!(ABSENT); }
-        if rng.chance(1, 10) { w["seed"] = json!(*rng.pick(&["short", "long", "nonhex", "missing", "odd"])); }
+        if rng.chance(1, 10) { w["seed"] = json!(*rng.pick(&["short", "long", "nonhex", "missing", "odd", "digits"])); }
         if rng.chance(1, 20) { w["interface"] = json!("missing"); }
         if rng.chance(1, 3) { w["client_stats"] = json!(*rng.pick(&["on", "yes", "off"])); }
         if rng.chance(1, 3) { w["persistence_directory"] = json!("dir"); }
@@ -162,7 +164,7 @@ fn classify(w: &Value) -> &'static str {
     let inr = |k: &str, v: i64| match k { "port" | "health_check_port" | "status_interval" => (1..=65535).contains(&v), "batch_size" => (1..=64).contains(&v),
         "fault_percentage" => (0..=50).contains(&v), _ => v >= 1 };
     let must_refuse = g("port") == ABSENT || ["port", "batch_size", "fault_percentage", "num_workers"].iter().any(|k| g(k) != ABSENT && !inr(k, g(k)))
-        || w["seed"] != "ok" || w["interface"] != "ok" || w["unknown_key"] == true;
+        || (w["seed"] != "ok" && w["seed"] != "digits") || w["interface"] != "ok" || w["unknown_key"] == true;
     if must_refuse { return "must_refuse"; }
     let stats_on = w["client_stats"] == "on" || w["client_stats"] == "yes";
     let must_run = INT_KEYS.iter().all(|(k, _)| g(k) == ABSENT || inr(k, g(k))) && (!stats_on || w["persistence_directory"] == "dir");
